@@ -660,7 +660,7 @@ static void run_c05_many_sleepers(void)
     ABT_OK(ABT_mutex_create(&MS.m));
     ABT_OK(ABT_cond_create(&MS.cv));
     const void *wlst = wb_cond_waitlist(MS.cv);
-    int deep = plan_n(sim_tier() ? 40 : !strcmp(sim_variant(), "VP") ? 2000 : 150) == 0;
+    int deep = plan_n(sim_tier() ? 120 : !strcmp(sim_variant(), "VP") ? 2000 : 150) == 0;
     MS.n = deep ? plan_range(120, 200) : plan_range(1, 8);
     sim_note("C05 many-sleepers n=%d: ", MS.n);
     static int tid[256];
